@@ -7,6 +7,7 @@ let parse_op toks =
   match toks with
   | ["ins"; k; v] -> OIns (z k, z v)
   | ["hint"; p; k; v] -> OHint (n p, z k, z v)
+  | ["hintc"; p; k; v; _] -> OHint (n p, z k, z v)   (* hinted insert with the position the implementation chose *)
   | ["remk"; k] -> ORemKey (z k)
   | ["remi"; p] -> ORemAt (n p)
   | ["remf"] -> ORemFront
@@ -76,7 +77,9 @@ let () =
     run_cases file on_case
       (fun (st, sp) _ toks ->
          let o = parse_op toks in
-         let ch = choice_of !flav st o in
+         let ch = (match toks with
+             | ["hintc"; _; _; _; r] -> nat_of_int (int_of_string r)   (* relational spec: check the implementation's choice *)
+             | _ -> choice_of !flav st o) in
          let (st', _) = step !flav st o in
          let (sp', r) = spec_step !flav sp o ch in
          let l = s_sel sp' in
